@@ -88,6 +88,7 @@ type Act struct {
 	dry      bool
 	cur      *State
 	curBlk   *ssa.BasicBlock
+	curIdx   int
 	unsupported []string
 	parentAct   *Act
 	freshAllocs []modEntry // objects allocated by this activation tree (root only)
@@ -105,7 +106,7 @@ func (a *Act) unsup(format string, args ...interface{}) {
 		}
 	}
 	a.unsupported = append(a.unsupported, msg)
-	a.vc.note("unsupported in " + a.fn.RelString(a.fn.Pkg.Pkg) + ": " + msg)
+	a.vc.note("unsupported in " + relName(a.fn) + ": " + msg)
 }
 
 func (a *Act) posOf(p token.Pos) string {
@@ -280,9 +281,11 @@ func (a *Act) runBlocks(blocks []*ssa.BasicBlock, dryLoop *loopInfo) {
 				o.ExpectSat = true
 			}
 		}
-		for _, in := range b.Instrs {
+		for idx, in := range b.Instrs {
+			a.curIdx = idx
 			a.instr(in)
 		}
+		a.curIdx = len(b.Instrs)
 		a.out[b] = a.cur
 	}
 }
